@@ -84,3 +84,11 @@ func NewPruneServiceForVerif(name string) Service {
 	}
 	return nil
 }
+
+// NewDeadLetterServiceForVerif returns a fresh instance of the service that
+// periodically sweeps deliveries that have used up their attempts to their
+// dead-letter topics, so that a verification harness can run its loop
+// (Initialize, Start) against its own database.
+func NewDeadLetterServiceForVerif() Service {
+	return &deadLetter{}
+}
